@@ -133,6 +133,6 @@ example : numReads (runConn false 0 [.x false .pass .pass (.ok 200 false), .x tr
 example : writeIdx (runConn false 0 [.x false .pass .pass (.ok 200 false), .x true .pass .pass (.ok 404 false),
     .x false .pass .pass (.ok 200 false)]) = [0, 1] := by decide
 example : at? false 0 {} 0 [.x false .pass .pass (.ok 200 false), .x true .pass .pass (.ok 404 false)] 1
-    = some ({}, .x true .pass .pass (.ok 404 false)) := by decide
+    = some ({ stored := 1 }, .x true .pass .pass (.ok 404 false)) := by decide
 
 end Martian.Props.C01
